@@ -1356,10 +1356,24 @@ func (t *fnTrans) checkInvariant(li *loopInfo, st *State, vars map[string]Val, g
 			if len(parts) > 1 {
 				lb = fmt.Sprintf("%s.%d", label, pi+1)
 			}
-			ob := t.obligG(kind, at, lb, guard, f, "invariant "+exprString(pe))
-			if ob != nil {
-				ob.Tags = cl.Tags
-				ob.Known = cl.Known
+			// a latch block reached over several edges: one obligation per incoming edge for quantified parts
+			// (fixes which of the merged heap versions is current; as for postconditions at merged returns)
+			guards, suffix := []string{guard}, []string{""}
+			if kind == "inv-preserve" && at != nil && strings.Contains(f, "(forall ") {
+				if inc := t.incomingEdges(at.Block()); len(inc) > 1 {
+					guards, suffix = nil, nil
+					for _, e := range inc {
+						guards = append(guards, and(guard, e.edge))
+						suffix = append(suffix, fmt.Sprintf("@b%d", e.pred))
+					}
+				}
+			}
+			for gi, g := range guards {
+				ob := t.obligG(kind, at, lb+suffix[gi], g, f, "invariant "+exprString(pe))
+				if ob != nil {
+					ob.Tags = cl.Tags
+					ob.Known = cl.Known
+				}
 			}
 		}
 	}
